@@ -21,6 +21,7 @@ func main() {
 	f := gc.Focus{Blocking: 250, Persistent: 350, Cancel: 120, Hold: 0, Nested: 80, Late: 350, CloseRace: 50, MaxSubs: 3, MaxPubs: 3, MaxMsgs: 4}
 	for i := 0; i < n; i++ {
 		sc := gc.Random(rng, f)
+		out.Begin(sc.Describe())
 		res := gc.Run(sc)
 		gc.Emit(out, res)
 		out.Count(fmt.Sprintf("cfg.buf%d.persist%v.block%v", sc.Buf, sc.Persistent, sc.Blocking))
